@@ -42,6 +42,9 @@ fn main() {
         let seed: u64 = args.get(2).and_then(|s| s.parse().ok()).unwrap_or(1);
         std::process::exit(c16::first_use_child(seed));
     }
+    if check == "c19-first-use-child" {
+        std::process::exit(c19large::first_use_child(&args[2]));
+    }
     if check == "oracle-selftest" {
         let seed: u64 = args.get(2).and_then(|s| s.parse().ok()).unwrap_or(1);
         std::process::exit(oracle_selftest::run(seed));
@@ -59,6 +62,7 @@ fn main() {
         "c20-serde" => run(c20::SerdeCheck, &opts),
         "c20-export" => run(c20::ExportCheck, &opts),
         "c19-large" => c19large::run(&opts),
+        "c19-first-use" => c19large::first_use_only(&opts),
         "c18-consumer" => run(c18::Consumer, &opts),
         "c18-mphf-serial" => run(c18::MphfSerial, &opts),
         _ => {
